@@ -715,3 +715,90 @@ Section NoFrame.
     - destruct ts; [destruct ref as [pid|]|]; [apply nf_ref; apply IH|apply IH|apply IH].
   Qed.
 End NoFrame.
+
+
+(* ---- the same induction once more: only these instruction forms are ever emitted ------------------- *)
+
+Definition emitted (i : insn) : bool :=
+  match i with
+  | INone | INewTrue | INewFalse | IInt _ | IBinint1 _ | IBinint2 _ | IBinint _ | ILong _
+  | IBinfloat _ | IFloat _ | IString _ | IShortBinstring _ | IBinstring _ | IUnicode _
+  | IShortBinunicode _ | IBinunicode _ | IShortBinbytes _ | IBinbytes _ | IBytearray8 _
+  | IMark | ITuple | ITuple1 | ITuple2 | ITuple3 | IEmptyTuple | IEmptyList | IList | IEmptyDict | IDict
+  | IGlobal _ _ | IStackGlobal | IReduce | IPersid _ | IBinpersid => true
+  | _ => false
+  end.
+Definition emitted_all (l : list insn) : Prop := Forall (fun i => emitted i = true) l.
+
+Section Emitted.
+  Variable c : econfig.
+  Lemma em_int : forall z, emitted_all (p_int c z). Proof. intros. unfold emitted_all, p_int. nf. Qed.
+  Lemma em_uint : forall z, emitted_all (p_uint c z). Proof. intros. unfold p_uint. destruct (z <=? int64_max)%Z; [apply em_int|unfold emitted_all; nf]. Qed.
+  Lemma em_bytestring : forall s, emitted_all (p_bytestring c s). Proof. intros. unfold emitted_all, p_bytestring. nf. Qed.
+  Lemma em_unicode : forall s, emitted_all (p_unicode c s). Proof. intros. unfold emitted_all, p_unicode. nf. Qed.
+  Lemma em_string : forall s, emitted_all (p_string c s).
+  Proof. intros. unfold p_string. destruct (e_strict c || (3 <=? e_proto c)%Z); [apply em_unicode|apply em_bytestring]. Qed.
+  Lemma em_class : forall m n, emitted_all (p_class c m n).
+  Proof. intros. unfold p_class. destruct (4 <=? e_proto c)%Z; unfold emitted_all; nf; try apply em_string. Qed.
+  Lemma em_tuple : forall n l, emitted_all l -> emitted_all (p_tuple c n l).
+  Proof.
+    intros n l H. unfold emitted_all, p_tuple in *.
+    destruct ((2 <=? e_proto c)%Z && Nat.leb 1 n && Nat.leb n 3).
+    - apply Forall_app. split; [exact H|]. destruct n as [|[|[|n]]]; (apply Forall_cons; [reflexivity|apply Forall_nil]).
+    - destruct ((1 <=? e_proto c)%Z && Nat.eqb n 0); nf.
+  Qed.
+  Lemma em_call : forall m n k l, emitted_all l -> emitted_all (p_call c m n k l).
+  Proof. intros m n k l H. unfold p_call. apply Forall_app. split; [apply em_class|]. apply Forall_app. split; [apply em_tuple; exact H|unfold emitted_all; nf]. Qed.
+  Lemma em_bytes : forall s, emitted_all (p_bytes c s).
+  Proof.
+    intros. unfold p_bytes. destruct (3 <=? e_proto c)%Z; [unfold emitted_all; nf|].
+    apply em_call. apply Forall_app. split; [apply em_unicode|apply em_bytestring].
+  Qed.
+  Lemma em_bytearray : forall s, emitted_all (p_bytearray c s).
+  Proof. intros. unfold p_bytearray. destruct (5 <=? e_proto c)%Z; [unfold emitted_all; nf|]. apply em_call. apply em_bytes. Qed.
+  Lemma em_ref : forall pid l, emitted_all l -> emitted_all (p_ref c pid l).
+  Proof.
+    intros pid l H. unfold emitted_all, p_ref in *. destruct (e_proto c =? 0)%Z.
+    - destruct pid; try apply Forall_nil. destruct ty; try apply Forall_nil. nf.
+    - nf.
+  Qed.
+
+  Theorem body_emitted : forall v, emitted_all (body c v).
+  Proof.
+    fix IH 1. intros v.
+    destruct v as [ | |b|z|z|f|k|ty s|s|l|l|es|es| |m n|m n args|pid|z|fields|ts ref x]; cbn [body].
+    - unfold emitted_all; nf.
+    - unfold emitted_all; nf.
+    - unfold emitted_all, p_bool; nf.
+    - apply em_int.
+    - apply em_uint.
+    - unfold emitted_all, p_float; nf.
+    - apply Forall_nil.
+    - destruct ty; [apply em_string|apply em_string|apply em_unicode|apply em_bytes|apply em_bytestring].
+    - apply em_bytearray.
+    - apply em_tuple. induction l as [|x r IHl]; [apply Forall_nil|]. apply Forall_app. split; [apply IH|exact IHl].
+    - destruct ((1 <=? e_proto c)%Z && Nat.eqb (length l) 0); [unfold emitted_all; nf|].
+      apply Forall_cons; [reflexivity|]. apply Forall_app. split; [|unfold emitted_all; nf].
+      induction l as [|x r IHl]; [apply Forall_nil|]. apply Forall_app. split; [apply IH|exact IHl].
+    - destruct ((1 <=? e_proto c)%Z && Nat.eqb (length es) 0); [unfold emitted_all; nf|].
+      apply Forall_cons; [reflexivity|]. apply Forall_app. split; [|unfold emitted_all; nf].
+      induction es as [|[k x] r IHl]; [apply Forall_nil|].
+      apply Forall_app. split; [apply IH|]. apply Forall_app. split; [apply IH|exact IHl].
+    - destruct ((1 <=? e_proto c)%Z && Nat.eqb (length es) 0); [unfold emitted_all; nf|].
+      apply Forall_cons; [reflexivity|]. apply Forall_app. split; [|unfold emitted_all; nf].
+      induction es as [|[k x] r IHl]; [apply Forall_nil|].
+      apply Forall_app. split; [apply IH|]. apply Forall_app. split; [apply IH|exact IHl].
+    - unfold emitted_all; nf.
+    - apply em_class.
+    - apply em_call. induction args as [|x r IHl]; [apply Forall_nil|]. apply Forall_app. split; [apply IH|exact IHl].
+    - apply em_ref. apply IH.
+    - unfold emitted_all, p_long; nf.
+    - apply Forall_cons; [reflexivity|]. apply Forall_app. split; [|unfold emitted_all; nf].
+      generalize (existsb (fun f => negb (Nat.eqb (length (sf_tag f)) 0)) fields). intros ut.
+      induction fields as [|[nm ex tg x] r IHl]; [apply Forall_nil|]. cbn beta iota zeta.
+      destruct (if ut then negb (Nat.eqb (length tg) 0) && negb (tag_later tg r) else ex).
+      + apply Forall_app. split; [apply em_string|]. apply Forall_app. split; [apply IH|exact IHl].
+      + exact IHl.
+    - destruct ts; [destruct ref as [pid|]|]; [apply em_ref; apply IH|apply IH|apply IH].
+  Qed.
+End Emitted.
